@@ -50,6 +50,7 @@ GROUPS = {
     "tsuka": ["rampu", "rampd", "sigu", "conc"],
     "tsukb": ["ssh", "zsh", "arc", "sigd"],
     "tsukh": ["ramph", "rampd"],  # a monotonic term of height 1/2
+    "tsukl": ["sigl", "sshl", "arcl"],  # monotonic terms of height 1/4 (no inverse at 1/2: a zero degree must not be evaluated there)
     "inverse": ["tri", "gau", "trap", "rect"],
     "mixed-ts-inv": ["k1", "tri"],
     "mixed-ts-tsu": ["k2", "rampu"],
@@ -78,9 +79,11 @@ def build_terms():
             "z": (lambda w, c=cls, q=p: RT.membership(c, q, 1.0, w)),
             "tsukamoto": (lambda w, c=cls, q=p: RT.tsukamoto(c, q, 1.0, w)) if mono else None,
         }
-    real["ramph"] = make_term("Ramp", "ramph", [0.0, 1.0], 0.5)
-    ref["ramph"] = {"kind": "tsukamoto", "z": lambda w: RT.membership("Ramp", [0.0, 1.0], 0.5, w),
-                    "tsukamoto": lambda w: RT.tsukamoto("Ramp", [0.0, 1.0], 0.5, w)}
+    for name, cls, p, h in (("ramph", "Ramp", [0.0, 1.0], 0.5), ("sigl", "Sigmoid", [0.5, 8.0], 0.25), ("sshl", "SShape", [0.0, 2.0], 0.25),
+                            ("arcl", "Arc", [2.0, 0.0], 0.25)):
+        real[name] = make_term(cls, name, p, h)
+        ref[name] = {"kind": "tsukamoto", "z": (lambda w, c=cls, q=p, hh=h: RT.membership(c, q, hh, w)),
+                     "tsukamoto": (lambda w, c=cls, q=p, hh=h: RT.tsukamoto(c, q, hh, w))}
     import copy
     for name in list(real):
         twin = copy.copy(real[name])  # same name and parameters, different object (Linear/Function keep the engine reference)
@@ -275,6 +278,8 @@ def run_batch(acc: Acc, real, ref, group: str, aggr_name, pair) -> None:
     rows = [(0.25, 1.0), (0.5, 0.0), (1.0, 0.5), (0.0, 0.0), (0.0, 0.75)]
     if "ramph" in pair:
         rows = [(0.25, 0.5), (0.5, 0.0), (0.125, 0.25), (0.0, 0.0), (0.0, 0.375)]  # degrees within the height 1/2
+    if group == "tsukl":
+        rows = [(0.125, 0.1875), (0.1875, 0.0), (0.0625, 0.125), (0.0, 0.0), (0.0, 0.125)]  # degrees within the height 1/4
     aggr = getattr(fl, aggr_name)() if aggr_name else None
     d1 = np.array([r[0] for r in rows])
     d2 = np.array([r[1] for r in rows])
